@@ -19,6 +19,7 @@ type Loader struct {
 	prog  *ssa.Program
 	spkgs []*ssa.Package
 	files map[string]*ast.File // filename -> AST (module files only)
+	writtenGlobals map[*ssa.Global]bool
 	tags  string
 	funcs map[string]*ssa.Function // funcName -> function (module packages)
 }
@@ -151,4 +152,35 @@ func (ld *Loader) exprAt(pos token.Pos) string {
 		}
 	}
 	return ""
+}
+
+// neverWritten: no function of the loaded module (package initialisers aside)
+// uses the global other than by loading it.
+func (ld *Loader) neverWritten(g *ssa.Global) bool {
+	if ld.writtenGlobals == nil {
+		ld.writtenGlobals = map[*ssa.Global]bool{}
+		for _, fn := range ld.funcs {
+			if fn.Name() == "init" || strings.HasPrefix(fn.Name(), "init#") {
+				continue
+			}
+			for _, b := range fn.Blocks {
+				for _, in := range b.Instrs {
+					for _, op := range in.Operands(nil) {
+						gg, ok := (*op).(*ssa.Global)
+						if !ok {
+							continue
+						}
+						if u, isLoad := in.(*ssa.UnOp); isLoad && u.X == gg {
+							continue
+						}
+						ld.writtenGlobals[gg] = true
+					}
+				}
+			}
+		}
+	}
+	if g.Pkg == nil || !strings.HasPrefix(g.Pkg.Pkg.Path(), modulePath) {
+		return false
+	}
+	return !ld.writtenGlobals[g]
 }
